@@ -56,6 +56,7 @@ void dom_queue(void);
 void dom_regs(void);
 void dom_heap(void);
 void dom_lexer(void);
+void dom_match(void);
 void dom_replay(const char *line);
 
 #endif
